@@ -938,6 +938,7 @@ int sx127x_lora_tx_set_for_transmission(const uint8_t *data, uint8_t data_length
 }
 
 int sx127x_lora_set_ppm_offset(int32_t frequency_error, sx127x *device) {
+  CHECK_MODULATION(device, SX127x_MODULATION_LORA);
   uint64_t frequency;
   ERROR_CHECK(sx127x_get_frequency(device, &frequency));
   uint8_t value = (uint8_t) (0.95f * ((float) frequency_error / (frequency / 1E6f)));
